@@ -1026,7 +1026,9 @@ def _val_to_numpy(
 
     if isinstance(getattr(val, "dtype", None), np.dtype):
         if as_list:
-            return NumbaList([np.asarray(val)])
+            arr = np.asarray(val)
+            # numba's typed list cannot hold object arrays (string keys)
+            return [arr] if arr.dtype.kind == "O" else NumbaList([arr])
         else:
             return np.asarray(val)
 
@@ -1047,6 +1049,9 @@ def _val_to_numpy(
         val_list = [np.asarray(val)]
 
     if as_list:
+        if val_list[0].dtype.kind == "O":
+            # numba's typed list cannot hold object arrays (string keys)
+            return list(val_list)
         return NumbaList(val_list)
     else:
         if len(val_list) > 1:
